@@ -153,6 +153,35 @@ def job_relation(ctx, jr, cap):
     H.finish_job(jr, e, res)
 
 
+def job_compare(ctx, jr, cap):
+    """less_than / greater_than on plain integer literals agree with numeric order; a non-numeric operand is the error result"""
+    from mirsym.models import f64_int_literal
+    jr.bounds = dict(operand_chars=cap, operands='plain integer literals [+-]?digits (leading zeros, +0 / -0 included) or strings containing a character that no number literal has',
+                     outside='fractions, exponents, inf, nan (floating point is outside the theories used)')
+    for cmd, ty in (('less_than', 'sdk::std::math::less_than::CommandImpl'), ('greater_than', 'sdk::std::math::greater_than::CommandImpl')):
+        for n in (1, 2, 3):
+            e = ctx.engine(unwind=cap + 4); t0 = time.time()
+            args = [H.sym_str(e, 'arg%d' % i, cap) for i in range(n)]
+            lits = [f64_int_literal(x) for x in args]
+            for isint, v, foreign in lits: e.assume(zor(isint, foreign))
+            ctxv, st = invocation_context(e, V(n, args))
+            rs, rv = run_command(e, ty, ctxv, st)
+            jr.symex_time += time.time() - t0
+            if n != 2:
+                e.obligations.append(Obligation(rs.g, zeq(rv.d, ERR), 'C16 %s: a wrong number of operands is the error result' % cmd, 'assert', 'oracle'))
+            else:
+                (ia, va, _), (ib, vb, _) = lits
+                both = zand(ia, ib)
+                exp = (va < vb) if cmd == 'less_than' else (va > vb)
+                e.obligations.append(Obligation(rs.g, zimp(znot(both), zeq(rv.d, ERR)), 'C16 %s: a non-numeric operand is the error result' % cmd, 'assert', 'oracle'))
+                e.obligations.append(Obligation(rs.g, zimp(both, check_result(rv, CONT, (True, bstr(exp)))), 'C16 %s agrees with numeric order' % cmd, 'assert', 'oracle'))
+
+            def extract(m, o=None, cmd=cmd): return dict(kind='c16_compare', cmd=cmd, args=[solve.model_str(m, x) for x in args])
+            res = discharge_known(e, jr, PID, {}, extract)
+            if n == 2: witness(jr, e, '%s with a leading zero' % cmd, zand(rs.g, lits[0][0], lits[1][0], args[0].len >= 2, args[0].ch[0] == 48), extract)
+            H.finish_job(jr, e, res)
+
+
 def job_range(ctx, jr):
     jr.bounds = dict(operands='<= 3 chars over digits, sign, x', span='end - start <= 4')
     e = ctx.engine(unwind=8); e.int_digits = 3; e.range_cap = 4
@@ -205,6 +234,12 @@ def py_expected(cmd, a):
         if cmd == 'ends_with': return ('err', None) if len(a) < 2 else ('val', b(a[0].endswith(a[1])))
         if cmd == 'equals': return ('err', None) if len(a) < 2 else ('val', b(a[0] == a[1]))
         if cmd == 'is_empty': return ('val', b(not a or a[0] == ''))
+        if cmd in ('less_than', 'greater_than'):
+            import re
+            if len(a) != 2: return ('err', None)
+            if not all(re.fullmatch(r'[+-]?[0-9]+', x) for x in a):
+                return ('err', None) if any(ch not in '0123456789+-.eE_infatyINFATY' for x in a if not re.fullmatch(r'[+-]?[0-9]+', x) for ch in (x or '?')) or '' in a else ('skip', None)
+            return ('val', b(int(a[0]) < int(a[1]) if cmd == 'less_than' else int(a[0]) > int(a[1])))
         if cmd == 'substring':
             raw = a[0].encode(); L = len(raw)
             def num(x):
@@ -266,10 +301,11 @@ def main(tier, seed):
     chk.job(job_substring, 'substring', cap=cap)
     chk.job(job_relation, 'relation', cap=cap)
     chk.job(job_range, 'range')
+    chk.job(job_compare, 'compare', cap=4 if tier == 'quick' else 7)
     chk.bounds = dict(argument_chars=cap, numeric_arguments='<= 3 chars', range_span='<= 4')
     chk.assumptions = ['for one-line wrappers around a std function the engine model and the oracle are the same specification: the check covers the command plumbing '
                        '(argument order/count, error paths, output formatting) and the unit consistency relation, not std itself',
-                       'n/a parts: calc (evalexpr), less_than/greater_than (f64), uppercase/lowercase (Unicode tables), concat (script-implemented), replace/split (std pattern code)',
+                       'n/a parts: calc (evalexpr), less_than/greater_than on operands that are not plain integer literals (f64), uppercase/lowercase (Unicode tables), concat (script-implemented), replace/split (std pattern code)',
                        'substring with end index == length is left unconstrained as the property says']
     results = chk.run()
     return chk.finish(results, 'every obligation is a solver query over all argument strings within the bounds')
